@@ -665,12 +665,15 @@ package middleware
 //@ func (*defaultRouter).OtherMethods
 //@ watch TU = call strings.ToUpper
 //@ watch RL = call (*middleware/denco.Router).Lookup tag mappos-1
+//@ watch CL = call path.Clean tag mappos-1
 //@ requires d != nil
 //@ requires forall k string :: in(k, d.routers) ==> d.routers[k] != nil
+//@ ensures [C01:cleaned] forall i int :: called(RL,i) ==> called(CL,i) && arg(CL,i,0) == path && arg(RL,i,1) == ret(CL,i,0)
 //@ ensures [C01:sound] forall j int :: 0 <= j && j < len(result) ==> in(result[j], d.routers) && result[j] != ret(TU,0,0) && exists i int :: called(RL,i) && ret(RL,i,2) && arg(RL,i,0) == d.routers[result[j]]
 //@ ensures [C01:complete] forall k string :: in(k, d.routers) && k != ret(TU,0,0) ==> called(RL,mapidx(k)) && arg(RL,mapidx(k),0) == d.routers[k] && (ret(RL,mapidx(k),2) ==> exists j int :: 0 <= j && j < len(result) && result[j] == k)
 //@ assigns comp:F!middleware/denco.Param!Name, comp:F!middleware/denco.Param!Value
 //@ loop 0 invariant calls(TU) == 1 && 0 <= mappos && mappos <= mapcard && (methods == nil || fresh(methods))
+//@ loop 0 invariant forall i int :: called(RL,i) ==> called(CL,i) && arg(CL,i,0) == path && arg(RL,i,1) == ret(CL,i,0)
 //@ loop 0 invariant forall i int :: called(RL,i) ==> 0 <= i && i < mappos && mapkey(i) != ret(TU,0,0) && arg(RL,i,0) == d.routers[mapkey(i)]
 //@ loop 0 invariant forall i int :: 0 <= i && i < mappos && mapkey(i) != ret(TU,0,0) ==> called(RL,i)
 //@ loop 0 invariant forall i int :: 0 <= i && i < mappos && mapkey(i) != ret(TU,0,0) && ret(RL,i,2) ==> exists j int @try(len(methods)-1) :: 0 <= j && j < len(methods) && methods[j] == mapkey(i)
@@ -690,10 +693,23 @@ package middleware
 //@ func (*defaultRouteBuilder).buildAuthenticators
 //@ watch SR = call (*github.com/go-openapi/analysis.Spec).SecurityRequirementsFor
 //@ requires d != nil && d.analyzer != nil && d.api != nil
-//@ ensures [C02:alternatives] calls(SR) == 1 && arg(SR,0,1) == operation
+//@ stable comp:F!github.com/go-openapi/analysis.SecurityRequirement!Name, comp:F!github.com/go-openapi/analysis.SecurityRequirement!Scopes, comp:E!Slice, comp:MD!Str!Slice, comp:MV!Str!Slice
+//@ spec alt(a) := ret(SR,0,0)[a]
+//@ spec fromAlt(m, a) := forall k string :: in(k, m) ==> exists i int :: 0 <= i && i < len(alt(a)) && alt(a)[i].Name == k && mapat(m, k) == alt(a)[i].Scopes
+//@ ensures [C02:alternatives] calls(SR) == 1 && arg(SR,0,1) == operation && len(result) == len(ret(SR,0,0))
+//@ ensures [C02:ownmaps] forall a int, b int :: 0 <= a && a < b && b < len(result) ==> result[a].Scopes != result[b].Scopes
+//@ ensures [C02:ownscopes] len(result) > 0 ==> fromAlt(result[len(result)-1].Scopes, len(result)-1)
 //@ assigns \opaque
-//@ loop 0 invariant auths == nil || fresh(auths)
+//@ loop 0 invariant (auths == nil || fresh(auths)) && calls(SR) == 1 && requirements == ret(SR,0,0) && len(auths) == rangeindex + 1 && (requirements == nil || allocated(requirements))
+//@ loop 0 invariant forall a int :: 0 <= a && a < len(auths) ==> allocated(auths[a].Scopes)
+//@ loop 0 invariant forall a int, b int :: 0 <= a && a < b && b < len(auths) ==> auths[a].Scopes != auths[b].Scopes
+//@ loop 0 invariant len(auths) > 0 ==> fromAlt(auths[len(auths)-1].Scopes, len(auths)-1)
 //@ loop 1 invariant (auths == nil || fresh(auths)) && (schemes == nil || fresh(schemes)) && (scopeSlices == nil || fresh(scopeSlices)) && fresh(scopes)
+//@ loop 1 invariant calls(SR) == 1 && requirements == ret(SR,0,0) && len(auths) == outer(rangeindex) + 1
+//@ loop 1 invariant reqs == alt(outer(rangeindex) + 1) && arrayof(scopeSlices) != arrayof(requirements) && allocated(requirements)
+//@ loop 1 invariant forall a int :: 0 <= a && a < len(auths) ==> allocated(auths[a].Scopes) && auths[a].Scopes != scopes
+//@ loop 1 invariant forall a int, b int :: 0 <= a && a < b && b < len(auths) ==> auths[a].Scopes != auths[b].Scopes
+//@ loop 1 invariant forall k string :: in(k, scopes) ==> exists i int @try(rangeindex) :: 0 <= i && i <= rangeindex && reqs[i].Name == k && mapat(scopes, k) == reqs[i].Scopes
 
 // AddRoute: registered only when the API has a handler for (method, path without base
 // path); the trie key is the path with {name}... rewritten to :name; the entry carries the
